@@ -507,6 +507,14 @@ def check_c14(prop, tier):
         rep2 = b'x\n' * 6 + b'y\n' + b'x\n' * 6
         rep2_patch = b'--- a/r.c\n+++ b/r.c\n@@ -5,5 +5,5 @@\n x\n x\n-y\n+z\n x\n x\n'
         special.append(({'tree0': empty_tree, 'series': []}, {'r.c': rep2, 'patches/r.patch': rep2_patch, 'series': b'r.patch\n'}))
+        # a hunk that applies at the stated place and would also apply further down: the multiapply analysis has a note to print
+        rep3 = b'a\nb\nc\nx\na\nb\nc\ny\n'
+        rep3_patch = b'--- a/r.c\n+++ b/r.c\n@@ -1,3 +1,3 @@\n a\n-b\n+B\n c\n'
+        for hdr in (b'+++ b/r.c', b'+++ /dev/null'):
+            special.append(({'tree0': empty_tree, 'series': []}, {'r.c': rep3, 'patches/r.patch': rep3_patch.replace(b'+++ b/r.c', hdr), 'series': b'r.patch\n'}))
+        # the same with /dev/null as one of the names of a modifying patch (the analysis note has to name the file)
+        special.append(({'tree0': empty_tree, 'series': []}, {'r.c': rep2, 'patches/r.patch': rep2_patch.replace(b'+++ b/r.c', b'+++ /dev/null'), 'series': b'r.patch\n'}))
+        special.append(({'tree0': empty_tree, 'series': []}, {'r.c': rep2, 'patches/r.patch': rep2_patch.replace(b'--- a/r.c', b'--- /dev/null'), 'series': b'r.patch\n'}))
         # many files, few file descriptors: a loader must not keep what it has read open (one patch with 150 sections and
         # 150 patches with one section each; at most 48 open files)
         many = {'__nofile__': 48}
